@@ -6,6 +6,7 @@ import utf_common as U
 LEVEL = "proof"
 TRUSTED_BASE = P.TRUSTED_BASE
 ASSUMPTIONS = P.ASSUMPTIONS + [
+    "byte order: the host is little-endian (Memory::Endian::native == little, so NativeToBigEndian is Reverse); le_bytes of coq/MpOrder.v is the object representation of an unsigned integer on such a host; T_C06_big_endian_16/32/64 are about rev16/rev32/rev64 of coq/UtfModel.v (Memory::Reverse as written), tied to memory_utils.h by op `rev` of harness/drv_msgpack.cpp (NativeToBigEndian + raw copy, BigEndianToNative inverts it) on every run",
     "typed level: the value-tree model (coq/MpSaveModel.v) declares the exact number of entries for every array / map / binary, as GetContainerSize and the fields-count visitor do for containers and classes without conditional members; base classes, conditional fields and non-string/integer map keys (float, timestamp) are not in the model (partial for those clauses)",
 ]
 
